@@ -5,6 +5,8 @@ Streams:
   corpus   corpus/C10/*.json first (the pLSCF ordmin >= 2 call repaired by 799da21, hand-made tie-breaking tables);
   A        gen.SC_apply on random option tables (dyadic values: exact in float and in Q) vs the model, every column
            range, tolerances on both sides of each margin, exact ties, duplicates, NaN patterns, malformed inputs;
+  A-tall   gen.SC_apply on tables of 1023 / 1024 / 1025 / 1230 / 2100 / 3000 rows x 3-6 columns whose matching previous
+           poles sit in rows beyond 1024 and 2048 (decoys in low rows); generated from a recipe, judged by the NumPy text only;
   B        result.Lab of SSIcov / SSIdat / pLSCF and the _MS variants vs the model applied to their own result tables
            (Fn_poles, Xi_poles, Phi_poles) with their run parameters (column<->order map of each class);
   B-hc     the same for every class variant with each hard criterion (conj, xi_max, mpc_lim, mpd_lim, and cov_max with
@@ -470,6 +472,103 @@ def call_sc(gen, Fn, Xi, Phi, c0, c1, tols):
         return None, type(e).__name__
 
 
+# ---------------------------------------------------------------------------------------------------------------
+# tall tables (rows are unbounded in the property): generated from a recipe, judged by the NumPy text only
+
+TALL_ROWS = (1023, 1024, 1025, 1230, 2100, 3000)
+TALL_TOLS = (1 / 16.0, 1 / 4.0, 1 / 8.0)
+
+
+def gen_tall(seed, R, C, L):
+    """Deterministic function of the recipe (seed, R, C, L): a table of R rows, almost all NaN, in which every current pole has
+    its matching previous-order pole in a chosen row zone ([0,1024), [1024,2048), [2048,R)) and, usually, a DECOY in a low row:
+    farther in frequency (so it must not be chosen) but inside err_fn, with a damping / shape that fails the criteria.
+    Returns Fn, Xi, Phi and the list of (row, column, row of the true match)."""
+    import random
+
+    rng = random.Random("C10-tall-%d-%d-%d-%d" % (seed, R, C, L))
+    cplx = L >= 2
+    Fn = np.full((R, C), np.nan)
+    Xi = np.full((R, C), np.nan)
+    Phi = np.full((R, C, L), np.nan, dtype=complex if cplx else float)
+    zones = [z for z in ((0, min(R, 1024)), (1024, min(R, 2048)), (2048, R)) if z[0] < z[1]]
+    K = rng.randint(6, 10)
+    base_f = [2.0 + 1.5 * m for m in range(K)]
+    base_x = [1 / 32.0] * K
+    base_p = [rand_shape(rng, L, cplx) for _ in range(K)]
+    used = [set() for _ in range(C)]
+
+    def free_row(o, lo, hi):
+        free = [r for r in range(lo, hi) if r not in used[o]]
+        if not free:  # the zone is full (e.g. the single row 1024 of a 1025-row table): any free row
+            free = [r for r in range(R) if r not in used[o]]
+        r = rng.choice(free)
+        used[o].add(r)
+        return r
+
+    def put(i, o, f, x, p):
+        Fn[i, o], Xi[i, o] = f, x
+        Phi[i, o, :] = p if cplx else np.real(p)
+
+    rows = [[None] * K for _ in range(C)]
+    for o in range(C):
+        for m in range(K):
+            z = zones[-1] if rng.random() < 0.6 else rng.choice(zones)  # mostly the highest zone the table has
+            i = free_row(o, *z)
+            rows[o][m] = i
+            mult = rng.choice(UNITS) if cplx else rng.choice([1, -1, 2, 0.5])
+            put(i, o, base_f[m] + rng.choice([0, 1, -1]) / 256.0, base_x[m] + rng.choice([0, 1, -1, 2]) / 4096.0, base_p[m] * mult)
+    matches = []
+    for o in range(1, C):
+        for m in range(K):
+            matches.append((rows[o][m], o, rows[o - 1][m]))
+            if rng.random() < 0.75:  # decoy in the previous column, low row, 8/256 away from the true neighbour
+                i = free_row(o - 1, 0, min(R, 1024))
+                f = Fn[rows[o - 1][m], o - 1] + rng.choice([1, -1]) * 8 / 256.0
+                if rng.random() < 0.5:
+                    put(i, o - 1, f, base_x[m] * 3, base_p[m])
+                else:
+                    q = rand_shape(rng, L, cplx)
+                    put(i, o - 1, f, base_x[m], q + 0 * base_p[m])
+    return Fn + 0.0, Xi + 0.0, Phi, matches
+
+
+def tall_case(ctx, gen, recipe, label):
+    """Run gen.SC_apply on the tall table of the recipe and judge it with the NumPy text (no Coq evaluation)."""
+    seed, R, C, L = int(recipe["seed"]), int(recipe["R"]), int(recipe["C"]), int(recipe["L"])
+    c0, c1 = int(recipe.get("c0", 0)), int(recipe.get("c1", C - 1))
+    tols = tuple(float(recipe.get(k, d)) for k, d in zip(("efn", "exi", "ephi"), TALL_TOLS))
+    Fn, Xi, Phi, matches = gen_tall(seed, R, C, L)
+    case = dict(kind="sc_apply_tall", seed=seed, R=R, C=C, L=L, c0=c0, c1=c1, efn=tols[0], exi=tols[1], ephi=tols[2], label=label,
+                note="table = props/C10.py gen_tall(seed, R, C, L)")
+    ctx.hist("stream", "A-tall")
+    ctx.hist("tall-rows", R)
+    Lab, err = call_sc(gen, Fn.copy(), Xi.copy(), Phi.copy(), c0, c1, tols)
+    inr = (lambda o: c0 <= o <= c1)
+    exp, why = text_labels(Fn, Xi, Phi, inr, *tols)
+    far = sum(1 for (i, o, k) in matches if k >= 1024 and exp[i, o] == 1)
+    ctx.count(case, nontrivial=bool(far > 0 or R <= 1024))
+    if recipe.get("expected_stable") is not None and (int((exp == 1).sum()) != int(recipe["expected_stable"])
+                                                      or far < int(recipe.get("expected_far_neighbours_min", 0))):
+        ctx.note("corpus recipe %s no longer generates the recorded table (%d stable poles expected by the text, %d recorded; %d with a neighbour in a row >= 1024)"
+                 % (label, int((exp == 1).sum()), int(recipe["expected_stable"]), far))
+    ctx.hist("tall-matches", "stable pole whose neighbour sits in a row >= 1024: %s" % ("yes" if far else "no"))
+    if Lab is None:
+        ctx.fail("oracle", "gen.SC_apply raised %s on a tall table (%d rows)" % (err, R), case, key="C10:SC_apply:raised-%s" % err)
+        return
+    if Lab.shape != Fn.shape or not np.isin(Lab, (0, 1)).all():
+        ctx.fail("oracle", "gen.SC_apply: label table of a tall table has shape %s / values outside 0,1" % (Lab.shape,), case, key="C10:SC_apply:shape")
+        return
+    bad = [(int(i), int(o)) for i, o in np.argwhere((exp >= 0) & (Lab != exp))]
+    if bad:
+        i, o = bad[0]
+        k = int(np.nanargmin(np.abs(Fn[:, o - 1] - Fn[i, o]))) if o >= 1 and Fn[i, o] == Fn[i, o] and not np.isnan(Fn[:, o - 1]).all() else None
+        ctx.fail("oracle", "SC_apply: %d poles of a %d-row table mislabelled, e.g. (row %d, column %d) labelled %d, the property says %d (%s); "
+                 "its closest previous-order pole is in row %s" % (len(bad), R, i, o, int(Lab[i, o]), int(exp[i, o]), why[(i, o)], k),
+                 dict(case, cell=[i, o], expected=int(exp[i, o]), got=int(Lab[i, o]), reason=why[(i, o)], neighbour_row=k, mislabelled=len(bad)),
+                 key="C10:SC_apply:%s" % ("spurious-" + why[(i, o)] if exp[i, o] == 0 else "missed-stable"))
+
+
 def shrink_two_columns(gen, Fn, Xi, Phi, c0, c1, tols, i, o):
     """By C10_sc_label_local the label of (i, o) depends on columns o-1, o only: try the two-column table."""
     if o < 1:
@@ -853,6 +952,8 @@ def run(ctx):
                     ctx.fail("oracle", "%s.run: no pole of order %d (= ordmin, column %d) is labelled stable on the corpus record %s, where the pole of order %d "
                              "repeats the pole of order %d within the tolerances" % (c["cls"], col + 1, col, name, col + 1, col),
                              dict(corpus=name, cls=c["cls"], params=c["params"]), key="C10:%s.run:missed-stable" % c["cls"])
+        elif c["kind"] == "sc_apply_tall":
+            tall_case(ctx, gen, c, "corpus:" + name)
         elif c["kind"] == "sc_apply":
             Fn, Xi, Phi = tables_from_json(c)
             tols = (float(c["efn"]), float(c["exi"]), float(c["ephi"]))
@@ -912,6 +1013,10 @@ def run(ctx):
         ctx.count(case, nontrivial=bool((exp == 1).any() and (exp[:, max(c0, 1):c1 + 1] == 0).any()))
         exprs.append("run_sc %s %s %s %d%%nat %d%%nat %s %s %s" % (tab_q(Fn), tab_q(Xi), tab_phi(Phi), c0, c1, qq(efn), qq(exi), qq(ephi)))
         meta.append(("sc", "SC_apply", Lab, Fn, Xi, Phi, inr, tols, case, True))
+
+    # ---------------- stream A-tall: tables of 1023 ... 3000 rows (function level, NumPy text only)
+    for k, R in enumerate(TALL_ROWS * ctx.n(1, 3)):
+        tall_case(ctx, gen, dict(seed=rng.randrange(1 << 30), R=R, C=rng.randint(3, 6), L=1 if (k + rng.randrange(2)) % 2 else 2), "generated")
 
     # ---------------- stream B
     for (kind, data, fs, params, rep) in class_configs(ctx):
